@@ -39,6 +39,16 @@ def collect(*args, **kw):
 
 
 @dataclasses.dataclass
+class DCState:
+  """An `init=False` field declared BEFORE ordinary fields."""
+  lr: float = 0.5
+  steps_done: list = dataclasses.field(default_factory=list, init=False)
+  momentum: float = 0.9
+  nesterov: bool = False
+  child: typing.Any = None
+
+
+@dataclasses.dataclass
 class DC:
   a: int = 1
   items: list = dataclasses.field(default_factory=list)
@@ -73,6 +83,19 @@ def _unbound_callable(v):
   if isinstance(v, functools.partial):
     return not v.args and not v.keywords and _unbound_callable(v.func)
   return inspect.isfunction(v) or inspect.isclass(v)
+
+
+@auto_config.auto_config(experimental_always_inline=False)
+def helper_chain(n):
+  """One partial derived from another; BOTH are used afterwards."""
+  base = functools.partial(mutable_defaults, scale=n)
+  wide = functools.partial(base, hooks=[n])
+  return posonly_defaults(base, 3, bias=wide, mode=[base, wide])
+
+
+@auto_config.auto_config
+def outer_chain(n):
+  return posonly_defaults(helper_chain(n), 2, mode=[helper_chain(n + 1)])
 
 
 def bind_canon(x, unbound_identity=True):
@@ -257,6 +280,7 @@ def cases(tier, r):
   for n in range(4 if tier == 'quick' else 30):
     yield 'inline', {'seed': n, 'transform': 'inline'}
     yield 'inline', {'seed': n, 'transform': 'inline', 'partial': True}
+    yield 'inline', {'seed': n, 'transform': 'inline', 'chain': True}
     yield 'tagged_odd', {'seed': n, 'transform': 'tagged_odd'}
     yield 'dataclasses', {'seed': n, 'transform': 'dataclasses'}
 
@@ -446,7 +470,7 @@ def execute(case):
     obs['problems'] = problems
     return obs, None
   if name == 'inline':
-    top = outer_partial if case.get('partial') else outer
+    top = outer_partial if case.get('partial') else (outer_chain if case.get('chain') else outer)
     cfg = top.as_buildable(case['seed'])
     base = build_canon(cfg)
     direct = bind_canon(top(case['seed']))
@@ -473,6 +497,9 @@ def execute(case):
     r = random.Random(case['seed'])
     shared = DC(a=5, items=[1])
     x = DC(a=r.randint(0, 3), items=[shared, {'k': shared}], child=DC(child=(shared, 's')))
+    if case['seed'] % 2:
+      x = DCState(lr=r.choice([0.1, 0.2]), momentum=r.choice([0.5, 0.8]), nesterov=True,
+                  child=DC(a=7, child=DCState(momentum=0.1)))
     c = fdl_dataclasses.convert_dataclasses_to_configs(x)
     built = fdl.build(c)
     obs.update(before=bind_canon(x), after=bind_canon(built), equal=(built == x))
